@@ -20,8 +20,8 @@ _C_FUNCS = ['create', 'free', 'readInstanceFile', 'readBasisFile', 'readSettings
 def _stages(tier):
     # many small chunks: the known crashing wrappers (known_findings.d/C20.json) kill a worker per occurrence
     if tier == 'thorough':
-        return [dict(name='asan', harness='h_capi', flavour='asan', cases=50000, chunks_per_job=12),
-                dict(name='opt', harness='h_capi', flavour='opt', cases=150000, chunks_per_job=12)]
+        return [dict(name='asan', harness='h_capi', flavour='asan', cases=36000, chunks_per_job=12),
+                dict(name='opt', harness='h_capi', flavour='opt', cases=110000, chunks_per_job=12)]
     return [dict(name='asan', harness='h_capi', flavour='asan', cases=2000, chunks_per_job=4),
             dict(name='opt', harness='h_capi', flavour='opt', cases=6000, chunks_per_job=4)]
 
@@ -30,7 +30,7 @@ def _minima(tier):
     per_fn = 60 if tier == 'quick' else 1500
     m = {'calls.SoPlex_' + f: per_fn for f in _C_FUNCS}
     m['calls.SoPlex_getRowVectorRational'] = 40 if tier == 'quick' else 1000      # focus cases only (1 case in 64)
-    m.update({'cases': 7000 if tier == 'quick' else 180000, 'oracle.twin_compared': 100000 if tier == 'quick' else 3000000,
+    m.update({'cases': 7000 if tier == 'quick' else 130000, 'oracle.twin_compared': 100000 if tier == 'quick' else 2500000,
               'solves.real': 300, 'solves.rational': 100, 'solves.with_iterations': 200, 'string.checked': 100,
               'args.negative_numerator': 200, 'args.denominator_one': 200, 'args.near_2^62': 100, 'args.zero_nonzeros': 100,
               'args.nnonzeros_larger_than_needed': 100, 'args.dim_larger_than_needed': 200, 'cases.ctest': 100,
